@@ -48,39 +48,35 @@ theorem load_touch (w : World) (u : User) (self : Flav) : (load w u self).2.2.to
 
 /-! ## the database after a trace -/
 
-theorem applyW_db (fixed : Bool) (u : User) (wm : World × Spec) (e : Eff) :
-    (applyW fixed u wm e).1.db = wm.1.db ∨ (applyW fixed u wm e).1.db = applyDb e wm.1.db := by
-  obtain ⟨w, m⟩ := wm
-  unfold applyW
-  dsimp only
-  have hdb : ∀ (s : Nat) (n : Name) (e : Eff),
-      (if effWrites w.db e = true then
-          (({ w with db := applyDb e w.db,
-                     touch := setTouch w.touch s n
-                       (if ((applyDb e w.db).decls.any fun d => d.stack == s && d.name == n) = true then some w.now else none),
-                     now := w.now + 1 } : World), m)
-        else (w, m)).1.db = w.db ∨
-      (if effWrites w.db e = true then
-          (({ w with db := applyDb e w.db,
-                     touch := setTouch w.touch s n
-                       (if ((applyDb e w.db).decls.any fun d => d.stack == s && d.name == n) = true then some w.now else none),
-                     now := w.now + 1 } : World), m)
-        else (w, m)).1.db = applyDb e w.db := by
-    intro s n e
+theorem applyDbW_db (w : World) (e : Eff) : (applyDbW w e).db = w.db ∨ (applyDbW w e).db = applyDb e w.db := by
+  unfold applyDbW
+  split
+  · exact Or.inl rfl
+  · dsimp only
     split
     · exact Or.inr rfl
     · exact Or.inl rfl
-  cases e with
-  | dbDeclare d tag => exact hdb _ _ _
-  | dbUndeclare s n v f => exact hdb _ _ _
-  | dbAssign s t n f v => exact hdb _ _ _
-  | dbUnassign s t n f => exact hdb _ _ _
-  | memAdd _ _ => exact Or.inl rfl
-  | memRemove _ _ _ _ => exact Or.inl rfl
-  | memAssign _ _ _ _ _ => exact Or.inl rfl
-  | memUnassign _ _ _ _ => exact Or.inl rfl
-  | save _ _ => exact Or.inl rfl
-  | rmTree _ => exact Or.inl rfl
+
+theorem applyDbW_dirs (w : World) (e : Eff) : (applyDbW w e).dirs = w.dirs ∧ (applyDbW w e).nst = w.nst := by
+  unfold applyDbW
+  split
+  · exact ⟨rfl, rfl⟩
+  · dsimp only
+    split <;> exact ⟨rfl, rfl⟩
+
+theorem applySaveW_db (u : User) (w : World) (m m' : Spec) (e : Eff) :
+    (applySaveW u w m m' e).db = w.db ∧ (applySaveW u w m m' e).touch = w.touch := by
+  unfold applySaveW
+  split
+  · exact ⟨rfl, rfl⟩
+  · split <;> exact ⟨rfl, rfl⟩
+
+theorem applyW_db (fixed : Bool) (u : User) (wm : World × Spec) (e : Eff) :
+    (applyW fixed u wm e).1.db = wm.1.db ∨ (applyW fixed u wm e).1.db = applyDb e wm.1.db := by
+  unfold applyW
+  dsimp only
+  rw [(applySaveW_db _ _ _ _ _).1]
+  exact applyDbW_db _ _
 
 /-- the database after the effects `es` is the replay of a sublist of `es` -/
 theorem foldl_applyW_db (fixed : Bool) (u : User) (es : List Eff) (wm : World × Spec) :
@@ -93,7 +89,8 @@ theorem foldl_applyW_db (fixed : Bool) (u : User) (es : List Eff) (wm : World ×
     · exact ⟨es', hs.cons e, by simp only [List.foldl_cons]; rw [he, h]⟩
     · exact ⟨e :: es', hs.cons_cons e, by simp only [List.foldl_cons]; rw [he, h]⟩
 
-theorem cutAfterDb_sublist (es : List Eff) (k : Nat) : (cutAfterDb es k).Sublist es := by
+theorem cutAfterDb_sublist (es : List Eff) (k : Nat) :
+    ((cutAfterDb es k).1 ++ (cutAfterDb es k).2.toList).Sublist es := by
   induction es generalizing k with
   | nil => cases k <;> exact List.Sublist.refl _
   | cons e es ih =>
@@ -103,9 +100,24 @@ theorem cutAfterDb_sublist (es : List Eff) (k : Nat) : (cutAfterDb es k).Sublist
       simp only [cutAfterDb]
       split
       · split
-        · exact (List.nil_sublist _).cons_cons e
-        · exact (ih k).cons_cons e
-      · exact (ih (k + 1)).cons_cons e
+        · simpa using (List.nil_sublist es).cons_cons e
+        · simpa using (ih k).cons_cons e
+      · simpa using (ih (k + 1)).cons_cons e
+
+/-- the database after a (possibly cut) replay is the replay of a sublist of the effects -/
+theorem replay_db (fixed : Bool) (u : User) (wm : World × Spec) (es : List Eff) (last : Option Eff) :
+    ∃ es' : List Eff, es'.Sublist (es ++ last.toList) ∧
+      (replay fixed u wm es last).db = es'.foldl (fun c e => applyDb e c) wm.1.db := by
+  obtain ⟨es', hs, he⟩ := foldl_applyW_db fixed u es wm
+  unfold replay
+  cases last with
+  | none => exact ⟨es', by simpa using hs, he⟩
+  | some e =>
+    dsimp only
+    rcases applyDbW_db (es.foldl (applyW fixed u) wm).1 e with h | h
+    · exact ⟨es', (hs.trans (List.sublist_append_left _ _)), by rw [h, he]⟩
+    · refine ⟨es' ++ [e], ?_, by rw [h, he]; simp [List.foldl_append]⟩
+      simpa using List.Sublist.append hs (List.Sublist.refl [e])
 
 /-- The database after a command of a history: the replay of a sublist of the trace the command emits from
 the view it loaded. -/
@@ -122,10 +134,11 @@ theorem step_db (fixed : Bool) (w : World) (u : User) (c : Cmd) (crash : Option 
   rw [hdb]
   cases crash with
   | none =>
-    obtain ⟨es', hs, he⟩ := foldl_applyW_db fixed u (run w.nst c ⟨w.db, m, w1.dirs, []⟩).2.tr (w1, m)
-    exact ⟨es', hs, by rw [he, hdb]⟩
+    obtain ⟨es', hs, he⟩ := replay_db fixed u (w1, m) (run w.nst c ⟨w.db, m, w1.dirs, []⟩).2.tr none
+    exact ⟨es', by simpa using hs, by rw [he, hdb]⟩
   | some k =>
-    obtain ⟨es', hs, he⟩ := foldl_applyW_db fixed u (cutAfterDb (run w.nst c ⟨w.db, m, w1.dirs, []⟩).2.tr k) (w1, m)
+    obtain ⟨es', hs, he⟩ := replay_db fixed u (w1, m) (cutAfterDb (run w.nst c ⟨w.db, m, w1.dirs, []⟩).2.tr k).1
+      (cutAfterDb (run w.nst c ⟨w.db, m, w1.dirs, []⟩).2.tr k).2
     exact ⟨es', hs.trans (cutAfterDb_sublist _ _), by rw [he, hdb]⟩
 
 theorem step_rmCache_db (fixed : Bool) (w : World) (u : User) (s : Nat) (f : Flav) :
@@ -162,7 +175,7 @@ theorem step_of_empty_trace (fixed : Bool) (w : World) (u : User) (c : Cmd) (cra
   cases crash with
   | none => exact ⟨hdb, hdirs, ht⟩
   | some k =>
-    have : cutAfterDb [] k = [] := by cases k <;> rfl
+    have : cutAfterDb [] k = ([], none) := by cases k <;> rfl
     dsimp only
     rw [this]
     exact ⟨hdb, hdirs, ht⟩
